@@ -46,7 +46,7 @@ def run_operator_case(case, prop, configs, weakly, want, nq=8, cinf_bounds=(5, 5
     if 'c-inference' in [c[0] for c in configs]:
         kw = dict(nat=rng.randint(2, cinf_bounds[0]), ncond=rng.randint(1, cinf_bounds[1]))
     if fam is None and kw:
-        fam = rng.choices(['rand', 'chain', 'indep', 'conjcons', 'multiex'], [8, 1, 1, 2.5, 1])[0]
+        fam = rng.choices(['rand', 'chain', 'indep', 'conjcons', 'multiex', 'expchain', 'disjant'], [8, 1, 1, 2.5, 1, 0.8, 2])[0]
     sig, conds, fam = gen.gen_base(rng, want=want, family=fam, **(kw if fam == 'rand' else {}))
     qs = gen.gen_queries(rng, sig, conds, nq)
     if fam == 'd4':
@@ -140,6 +140,51 @@ def run_operator_case(case, prop, configs, weakly, want, nq=8, cinf_bounds=(5, 5
                     'detail': {'base': bdesc, 'query': qtext, 'impl': g, 'definition': exp,
                                'oracle_note': note, 'partition': setup.part, 'inf': setup.inf,
                                'tags': tags, 'via': via}})
+    # ---- c-inference: the compiled base constraint system must describe exactly the c-representations.
+    # (The answers are skeptical inference over that set; a system that loses or admits vectors changes some
+    # answer even if none of this case's queries shows it.)
+    if csys is not None and len(conds) <= 5 and rng.random() < 0.5:
+        try:
+            from inference.c_inference import CInference
+            from inference.inference_manager import create_epistemic_state
+            from pysmt.shortcuts import Solver, Symbol, Equals, Int
+            from pysmt.typing import INT
+            bbx = impl.mk_bb(sig, conds, keys=keys)
+            es = create_epistemic_state(bbx, 'c-inference', 'z3', 'rc2', False)
+            ci = CInference(es)
+            ci.preprocess_belief_base(0)
+            csp = es.get('base_csp', getattr(ci, 'base_csp', None))
+            klist = list(bbx.conditionals.keys())
+            if csp is not None:
+                n_ = len(conds)
+                hi = n_ + 2
+                import itertools
+                space = list(itertools.product(range(hi + 1), repeat=n_))
+                if len(space) > 260:
+                    space = [tuple(rng.randint(0, hi) for _ in range(n_)) for _ in range(260)]
+                with Solver(name='z3') as sv:
+                    for cst in csp:
+                        sv.add_assertion(cst)
+                    for eta in space:
+                        sv.push()
+                        for kk, v in zip(klist, eta):
+                            sv.add_assertion(Equals(Symbol('eta_%s' % kk, INT), Int(v)))
+                        acc = sv.solve()
+                        sv.pop()
+                        truth = csys.is_crep(eta)
+                        res['evals'] += 1
+                        bump('impact_vectors_judged')
+                        if acc != truth:
+                            res['violations'].append({
+                                'sig': 'c-inference/rc2:%s:constraint-system-%s' % (
+                                    mode, 'rejects-a-c-representation' if truth else 'admits-a-non-c-representation'),
+                                'detail': {'base': bdesc, 'impacts': list(eta), 'is_c_representation': truth,
+                                           'largest_impact_exceeds_number_of_conditionals': max(eta) > n_}})
+                            break
+        except Exception as e:  # the monitor could not be attached (names changed): no verdict
+            if type(e).__name__ == 'SoftTimeout':
+                raise
+            bump('constraint_system_monitor_not_attached')
     # ---- the same BeliefBase OBJECT edited in place (a rule replaced under its key), asked again through new
     # managers: answers are a function of the base's content, not of what was computed for the object before
     if rng.random() < 0.2 and len(conds) >= 2:
